@@ -64,7 +64,7 @@ func c03Alphabet() []Op {
 
 // c03SplitPool (family 1): routes below one parameter whose following literal text shares a prefix, so that the text
 // is split between nodes while both are live and the question is what is left when one of them goes again.
-var c03SplitPool = []string{"/p/{x}/bc", "/p/{x}/bcd", "/p/{x}/bd", "/p/{x}/b", `/p/{x:\d+}/bc`, `/p/{x:\d+}/bd`, "/p/{x}"}
+var c03SplitPool = []string{"/p/{x}/{y}", "/p/{x}/bc", "/p/{x}/bcd", "/p/{x}/bd", "/p/{x}/b", `/p/{x:\d+}/bc`, `/p/{x:\d+}/bd`, "/p/{x}"}
 
 func c03SplitAlphabet() []Op {
 	var ops []Op
@@ -89,7 +89,7 @@ func c03PathsOf(family int, ic ref.Interceptors) []string {
 		return c03Paths(ic)
 	}
 	// values that contain pieces of the literal text that follows the parameter
-	return []string{"/p/zz/bc", "/p/zz/bd", "/p/zz/b", "/p/7/bc", "/p/7/bd", "/p/zz", "/p/7", "/p/zz/bcd", "/p/1/b/bcd", "/p/1/bc/bcd", "/p/1/b/bc", "/p/1/b/bd", "/p/1/bd/bc", "/p/1/b/b", "/p/1/bc/bc", "/p/7/b/bc", "/p/1//bc", "/p/1/bcd", "/p/zz/"}
+	return []string{"/p/zz/bc", "/p/zz/bd", "/p/zz/b", "/p/7/bc", "/p/7/bd", "/p/zz", "/p/7", "/p/zz/7", "/p/1/2", "/p/1/2/3", "/p/zz/bcd", "/p/1/b/bcd", "/p/1/bc/bcd", "/p/1/b/bc", "/p/1/b/bd", "/p/1/bd/bc", "/p/1/b/b", "/p/1/bc/bc", "/p/7/b/bc", "/p/1//bc", "/p/1/bcd", "/p/zz/"}
 }
 
 // simple witness values share no byte with any literal text of the pools.
